@@ -47,6 +47,12 @@ pub fn programs06() -> Vec<(String, Program, bool)> {
         p.push(None, Stmt::Fill(Lit::hex(w)));
     }
     v.push(("data-words".into(), p, false));
+    // no statement at all: the object file is the origin word alone, the machine runs into the
+    // implicit HALT at once
+    v.push(("empty-program".into(), Program::default(), false));
+    let mut p = Program::default();
+    p.items.push(Item::Orig(Lit::hex(0x4000)));
+    v.push(("only-an-origin".into(), p, false));
     // the first statement emits x0000 (a branch never taken), visible behaviour follows
     let mut p = Program::default();
     p.push(Some("first"), Stmt::Fill(Lit::dec(0)));
